@@ -1025,6 +1025,18 @@ def run_c14(ctx):
         if cfg == ctx.cfgs[-1]:
             typed_part(ctx, 'run_c14_typed')
     ctx.violations += judge_unbounded(ctx)
+    if 'fr' in getattr(ctx, 'side_cfgs', []) and 'fr' not in ctx.cfgs:
+        # float_roundtrip side configuration: the long-literal paths hand the shared scratch buffer to lexical, which unwraps every byte as a digit —
+        # a stale byte from an earlier string / number panics there: documents with long literals AFTER scratch-dirtying items, all three sources
+        rng = ctx.rng
+        dirt = [b'"\\n"', b'"a\\u0037b"', b'18446744073709551616123', b'1.2345678901234567890123', b'"plain"', b'{"k\\t":"v"}']
+        longs = [b'0.00123456789012345678901', b'0.00000123456789012345678901234', b'123456789012345678901234567890.5', b'0.000000000000000000001234567890123456789e10',
+                 b'-0.0000000000000000000000000000000000001234567890123456789012345', b'12345678901234567890e-5']
+        docs = [b'[' + a + b', ' + b + b']' for a in dirt for b in longs] + [b'{"a":' + a + b',"b":' + b + b'}' for a in dirt[:3] for b in longs] + \
+               [b'[' + b', '.join(rng.choice(dirt + longs) for _ in range(4)) + b']' for _ in range(300)]
+        for src in ('b', 'r1', 's'):
+            ctx.violations += judge_c14(ctx, 'fr', docs, {'op': 'pv', 'src': src})
+        ctx.violations += [dict(v, what='wrong-value-after-scratch-reuse') for v in judge_c02(ctx, 'fr', docs)]
     # error construction itself must not panic: every data error scans its own message for a trailing " at line L column C" (parse_line_col), and the
     # message echoes input text; (i) the message-level model check, (ii) input strings carrying such tails (ASCII and non-ASCII numerics, cut inside a
     # multi-byte character's neighbourhood) read into a type that rejects them
@@ -1249,5 +1261,5 @@ register('C10', cfgs={'quick': ['def', 'raw'], 'thorough': ['def', 'raw', 'ap']}
 register('C11', cfgs={'quick': ['def'], 'thorough': ['def']}, run=run_c11, judge=judge_c11, extended=run_c11, trusted_base=PARSER_TB)
 register('C12', cfgs={'quick': ['def'], 'thorough': ['def']}, side_cfgs=['fr', 'ap'], run=run_c12, judge=judge_c12, extended=run_c12, trusted_base=PARSER_TB)
 register('C13', cfgs={'quick': ['def'], 'thorough': ['def']}, side_cfgs=['ap'], run=run_c13, judge=None, extended=run_c13, trusted_base=PARSER_TB)
-register('C14', cfgs={'quick': ['def'], 'thorough': ['def', 'ud']}, side_cfgs=['ud'], run=run_c14, judge=judge_c14, extended=run_c14, trusted_base=PARSER_TB)
+register('C14', cfgs={'quick': ['def'], 'thorough': ['def', 'ud']}, side_cfgs=['ud', 'fr'], run=run_c14, judge=judge_c14, extended=run_c14, trusted_base=PARSER_TB)
 register('C19', cfgs={'quick': ['raw'], 'thorough': ['raw', 'rawpofr']}, run=run_c19, judge=judge_c19, extended=run_c19, trusted_base=PARSER_TB)
